@@ -227,6 +227,16 @@ impl<'a> G<'a> {
     }
     pub fn value(&mut self) -> Value {
         let c = self.coin();
+        if self.r.chance(1, 40) {
+            // a bundle that lists policies with nothing under them: the same value as the bare coin, and written
+            // as the bare coin (an empty optional collection counts as absent)
+            let mut ma = MultiAsset::new();
+            for _ in 0..self.n1(2) {
+                ma.insert(&self.scripthash(), &Assets::new());
+            }
+            self.tags.empty_optional_collection = true;
+            return Value::new_with_assets(&c, &ma);
+        }
         if self.r.chance(1, 3) {
             Value::new_with_assets(&c, &self.multiasset())
         } else {
